@@ -4,14 +4,17 @@ from props.common import *
 from props.c19 import failing_op, chain_at, KINDS as FAIL_KINDS
 
 ID = "C10"
-RULE = ("X-mode-p cases: a random conformant call sequence (random presentation, known/unknown/explicit-width masters, raw writes, "
-        "interleaved flush calls) is written; after every call the bytes the destination holds so far are parsed with the real iterator "
+RULE = ("X-mode-p cases: a random conformant call sequence (random presentation, known/unknown/explicit-width masters) is written; after every call the bytes the destination holds so far are parsed with the real iterator "
         "(EOF closing off).  Oracle: byte counts never decrease (the destination is append-only, so earlier bytes are a prefix); after a "
         "successful element / Full / End write with no known-size master open the parse equals exactly the tags accepted so far; while a "
         "known-size master is open nothing is handed over; after flush/into_inner everything parses (EOF closing on) to the full document. "
         "In a third of the cases one call that must be rejected (the ten kinds of C19) is inserted at a random position: the same must hold "
         "for all other calls (a rejected call must not change when later bytes are handed over). "
-        "non-trivial = at least 2 checkpoints where the parse was compared; distinct = distinct case line")
+        "ioerr cases (pairs of W lines): the same call sequence, with flush() calls between top-level tags, against an accepting destination and "
+        "against one that fails (injected errors, Ok(0), short writes, Interrupted): no verdict other than Ok -> I/O error may change, byte counts never "
+        "decrease, and after every call that returns Ok where the undisturbed run handed bytes over the failing destination holds exactly what the "
+        "undisturbed one held (nothing accepted is lost; a later flush delivers it), the final bytes are equal when the last call succeeds and a prefix otherwise. "
+        "non-trivial = at least 2 checkpoints where the parse was compared (ioerr: an I/O error occurred); distinct = distinct case line")
 TRUSTED = TRUSTED_BASE
 ASSUMPTIONS = ASSUME_BASE
 EXHAUSTIVE = {}
@@ -45,10 +48,16 @@ def generate(rng, tier):
         # tags that were accepted - whatever a later successful call hands over is what the undisturbed run had handed over by then
         if rej is None and rng.random() < 0.5:
             ops2 = []
+            depth = 0
             for o in ops:
-                if rng.random() < 0.12:
+                # flush() closes every open master: only between top-level tags does the sequence stay conformant
+                if depth == 0 and rng.random() < 0.4:
                     ops2.append(("F", None))
                 ops2.append(o)
+                if o[1][0] == "s":
+                    depth += 1
+                elif o[1][0] == "e":
+                    depth -= 1
             script = []
             for _ in range(rng.randint(1, 6)):
                 script.append(rng.choice(["1", "2", "3", "5", "9", "40", "i", "1000"]))
